@@ -2,6 +2,7 @@
   Control skeleton shared by DOPRI5 and DOP853 (Hairer's step-size control with Lund stabilisation, stiffness
   detection, last-step landing), parametric in the numeric kernel.  Mirrors `solve()` of dopri5.rs / dop853.rs
   statement by statement; the literals that differ between the two files are fields of `HParams`.
+  The loop body is cut into small named phases so that each invariant is proved phase by phase.
 -/
 import IvpModel.Model.Ctl
 
@@ -17,7 +18,6 @@ structure HKernel (α : Type) (n : Nat) where
   SA : Type
   /-- the stages: calls made (time, argument) and the literal added to `evals.ode` -/
   trial : Rhs α n → (x h : α) → (y k1 : Vec α n) → S × Array (α × Vec α n) × Nat
-  /-- error norm `err` and `fac11 = err^expo1` inputs are derived by the skeleton; this is `err` -/
   err : S → (y : Vec α n) → (h : α) → α
   acceptA : Rhs α n → S → (x h : α) → (y k1 : Vec α n) → SA × Array (α × Vec α n) × Nat
   /-- new `hlamb` of the stiffness test -/
@@ -43,9 +43,7 @@ structure HParams (α : Type) (n : Nat) where
   dense : Bool
   /-- 3.25 (DOPRI5) / 6.1 (DOP853) -/
   stiffLimit : α
-  /-- literals shared by both files -/
   one : α
-  facoldMin : α     -- 1.0e-4
   quarter : α
   half : α
   threeq : α
@@ -70,90 +68,93 @@ structure HState (σ α : Type) (n : Nat) where
   nonstiff : Nat := 0
   iasti : Nat := 0
   hlamb : α
-  cnt : Counters := {}
-  ncalls : Nat := 0
+  m : Meter α n := {}
   obs : σ
-  log : Array (Ev α n) := #[]
 
 def HState.result {σ : Type} (s : HState σ α n) (st : Status) : Result σ α n :=
-  { status := st, h := s.h, x := s.x, y := s.y, cnt := s.cnt, ncalls := s.ncalls, obs := s.obs, log := s.log }
+  { status := st, h := s.h, x := s.x, y := s.y, m := s.m, obs := s.obs }
 
 instance (P : HParams α n) (h x u : α) : Decidable (P.underflow h x u) := P.underflowDec h x u
 instance (P : HParams α n) (x h e p : α) : Decidable (P.lastG x h e p) := P.lastDec x h e p
 
+/-- loop head: step budget, step-size underflow -/
+def hGuard {σ : Type} (P : HParams α n) (s : HState σ α n) : Option Status :=
+  if s.m.cnt.total > P.nmax then some .needLargerNMax
+  else if P.underflow s.h s.x P.uround then some .stepSizeTooSmall
+  else none
+
+/-- "Adjust last step to land on xend" -/
+def hAdjust {σ : Type} (P : HParams α n) (s : HState σ α n) : α × Bool :=
+  if P.lastG s.x s.h P.xend P.posneg then (P.xend - s.x, true) else (s.h, s.last)
+
+structure HTrial (α : Type) (n : Nat) (S : Type) where
+  S : S
+  m : Meter α n
+  err : α
+  fac11 : α
+  hnew : α
+
+/-- `steps.total += 1`, the stages, the error norm, "Computation of hnew" -/
+def hTrial {σ : Type} (P : HParams α n) (Kn : HKernel α n) (f : Rhs α n) (s : HState σ α n) (h : α) : HTrial α n Kn.S :=
+  let r := Kn.trial (fun j => f (s.m.ncalls + j)) s.x h s.y s.k1
+  let err := Kn.err r.1 s.y h
+  let c := P.hnewCalc err s.facold h
+  { S := r.1, m := s.m.incTotal.bump r.2.1 r.2.2, err := err, fac11 := c.1, hnew := c.2 }
+
+/-- "Step rejected" -/
+def hRejected {σ : Type} (P : HParams α n) (s : HState σ α n) (h : α) (m : Meter α n) (fac11 : α) : HState σ α n :=
+  { s with h := P.hReject h fac11, reject := true, last := false,
+           m := if m.cnt.accepted > 1 then m.incRejected else m }
+
+/-- stiffness bookkeeping: (nonstiff, iasti, stop) -/
+def hStiff (hlamb limit : α) (nonstiff iasti : Nat) : Nat × Nat × Bool :=
+  if hlamb > limit then (0, iasti + 1, decide (iasti + 1 = 15))
+  else (nonstiff + 1, (if nonstiff + 1 = 6 then 0 else iasti), false)
+
+/-- limits on the next step after an accepted, non-final step -/
+def hNextStep (P : HParams α n) (hnew h : α) (reject : Bool) : α :=
+  let hnew := if Num.abs hnew > Num.abs P.hmax then P.posneg * Num.abs P.hmax else hnew
+  if reject then P.posneg * Num.fmin (Num.abs hnew) (Num.abs h) else hnew
+
+/-- "Step accepted" -/
+def hAccepted {σ : Type} (P : HParams α n) (Kn : HKernel α n) (f : Rhs α n) (ob : Obs σ α n) (s : HState σ α n)
+    (h : α) (last : Bool) (T : HTrial α n Kn.S) : Sum (HState σ α n) (Result σ α n) :=
+  let facold := P.facoldNew T.err
+  let m := T.m.incAccepted
+  let a := Kn.acceptA (fun j => f (m.ncalls + j)) T.S s.x h s.y s.k1
+  let m := m.bump a.2.1 a.2.2
+  -- Stiffness detection
+  let doStiff := decide (m.cnt.accepted % P.nstiff = 0) || decide (s.iasti > 0)
+  let hlamb := if doStiff then Kn.hlamb a.1 h s.y s.k1 s.hlamb else s.hlamb
+  let st := if doStiff then hStiff hlamb P.stiffLimit s.nonstiff s.iasti else (s.nonstiff, s.iasti, false)
+  if st.2.2 then
+    .inr { status := .probablyStiff, h := h, x := s.x, y := s.y, m := m, obs := s.obs }
+  else
+    -- dense output, state update
+    let b := Kn.acceptB (fun j => f (m.ncalls + j)) P.dense a.1 s.x h s.y s.k1
+    let m := m.bump b.2.2.2.1 b.2.2.2.2
+    let xold := s.x
+    let x := s.x + h
+    let ip : Option (α → Vec α n) := if P.dense then some (Kn.interp b.2.2.1 xold h) else none
+    let m := m.cb xold x b.1 (sampleInterp ip xold x P.quarter P.half P.threeq)
+    match afterCb f ob s.obs m xold x b.1 ip b.2.1 with
+    | .stop obs y => .inr { status := .userInterrupt, h := h, x := x, y := y, m := m, obs := obs }
+    | .go obs y k1 m =>
+      if last then .inr { status := .success, h := T.hnew, x := x, y := y, m := m, obs := obs }
+      else
+        .inl { x := x, h := hNextStep P T.hnew h s.reject, y := y, k1 := k1, facold := facold, last := last, reject := false,
+               nonstiff := st.1, iasti := st.2.1, hlamb := hlamb, m := m, obs := obs }
+
 /-- one pass of `loop { … }` -/
 def hIter {σ : Type} (P : HParams α n) (Kn : HKernel α n) (f : Rhs α n) (ob : Obs σ α n) (s : HState σ α n) :
     Sum (HState σ α n) (Result σ α n) :=
-  -- Check for maximum number of steps
-  if s.cnt.total > P.nmax then .inr (s.result .needLargerNMax)
-  -- Check for underflow due to machine rounding
-  else if P.underflow s.h s.x P.uround then .inr (s.result .stepSizeTooSmall)
-  else
-    -- Adjust last step to land on xend
-    let (h, last) := if P.lastG s.x s.h P.xend P.posneg then (P.xend - s.x, true) else (s.h, s.last)
-    let cnt := { s.cnt with total := s.cnt.total + 1 }
-    -- the stages
-    let fT : Rhs α n := fun j => f (s.ncalls + j)
-    let (S, calls, lit) := Kn.trial fT s.x h s.y s.k1
-    let log := logCalls s.log s.ncalls calls
-    let ncalls := s.ncalls + calls.size
-    let cnt := { cnt with ode := cnt.ode + lit }
-    let err := Kn.err S s.y h
-    let (fac11, hnew) := P.hnewCalc err s.facold h
-    if err ≤ P.one then
-      -- Step accepted
-      let facold := P.facoldNew err
-      let cnt := { cnt with accepted := cnt.accepted + 1 }
-      let fA : Rhs α n := fun j => f (ncalls + j)
-      let (SA, callsA, litA) := Kn.acceptA fA S s.x h s.y s.k1
-      let log := logCalls log ncalls callsA
-      let ncalls := ncalls + callsA.size
-      let cnt := { cnt with ode := cnt.ode + litA }
-      -- Stiffness detection
-      let doStiff := decide (cnt.accepted % P.nstiff = 0) || decide (s.iasti > 0)
-      let hlamb := if doStiff then Kn.hlamb SA h s.y s.k1 s.hlamb else s.hlamb
-      let (nonstiff, iasti, stiffStop) :=
-        if doStiff then
-          if hlamb > P.stiffLimit then (0, s.iasti + 1, decide (s.iasti + 1 = 15))
-          else (s.nonstiff + 1, (if s.nonstiff + 1 = 6 then 0 else s.iasti), false)
-        else (s.nonstiff, s.iasti, false)
-      if stiffStop then
-        .inr { status := .probablyStiff, h := h, x := s.x, y := s.y, cnt := cnt, ncalls := ncalls, obs := s.obs, log := log }
-      else
-        -- dense output, state update
-        let fB : Rhs α n := fun j => f (ncalls + j)
-        let (ynew, k1new, cont, callsB, litB) := Kn.acceptB fB P.dense SA s.x h s.y s.k1
-        let log := logCalls log ncalls callsB
-        let ncalls := ncalls + callsB.size
-        let cnt := { cnt with ode := cnt.ode + litB }
-        let xold := s.x
-        let x := s.x + h
-        let ip : Option (α → Vec α n) := if P.dense then some (Kn.interp cont xold h) else none
-        let log := log.push (Ev.cb xold x ynew (sampleInterp ip xold x P.quarter P.half P.threeq))
-        let (obs, flag, ycb) := ob s.obs xold x ynew ip
-        match flag with
-        | .interrupt =>
-          .inr { status := .userInterrupt, h := h, x := x, y := ycb, cnt := cnt, ncalls := ncalls, obs := obs, log := log }
-        | _ =>
-          -- ModifiedSolution: recompute k1 at the new (x, y)
-          let (k1', log, ncalls, cnt) :=
-            if flag = .modified then
-              (f ncalls x ycb, log.push (Ev.ode ncalls x ycb), ncalls + 1, { cnt with ode := cnt.ode + 1 })
-            else (k1new, log, ncalls, cnt)
-          if last then
-            .inr { status := .success, h := hnew, x := x, y := ycb, cnt := cnt, ncalls := ncalls, obs := obs, log := log }
-          else
-            -- Check for step size limits
-            let hnew := if Num.abs hnew > Num.abs P.hmax then P.posneg * Num.abs P.hmax else hnew
-            -- Prevent oscillations due to previous rejected step
-            let hnew := if s.reject then P.posneg * Num.fmin (Num.abs hnew) (Num.abs h) else hnew
-            .inl { x := x, h := hnew, y := ycb, k1 := k1', facold := facold, last := last, reject := false,
-                   nonstiff := nonstiff, iasti := iasti, hlamb := hlamb, cnt := cnt, ncalls := ncalls, obs := obs, log := log }
-    else
-      -- Step rejected
-      let hnew := P.hReject h fac11
-      let cnt := if cnt.accepted > 1 then { cnt with rejected := cnt.rejected + 1 } else cnt
-      .inl { s with h := hnew, reject := true, last := false, cnt := cnt, ncalls := ncalls, log := log }
+  match hGuard P s with
+  | some st => .inr (s.result st)
+  | none =>
+    let a := hAdjust P s
+    let T := hTrial P Kn f s a.1
+    if T.err ≤ P.one then hAccepted P Kn f ob s a.1 a.2 T
+    else .inl (hRejected P s a.1 T.m T.fac11)
 
 /-- the main loop, with fuel (the real loop has none; termination is C04) -/
 def hLoop {σ : Type} (P : HParams α n) (Kn : HKernel α n) (f : Rhs α n) (ob : Obs σ α n) :
@@ -163,30 +164,26 @@ def hLoop {σ : Type} (P : HParams α n) (Kn : HKernel α n) (f : Rhs α n) (ob 
     | .inr r => some r
     | .inl s' => hLoop P Kn f ob fuel s'
 
+/-- initial meter: first derivative, then either the given first step or the `hinit` probe -/
+def startMeter (f : Rhs α n) (x0 : α) (y0 : Vec α n) (posneg : α) (firstStep : Option α)
+    (hinit : Rhs α n → Vec α n → α × Array (α × Vec α n)) : α × Vec α n × Meter α n :=
+  let k1 := f 0 x0 y0
+  let m : Meter α n := ({} : Meter α n).bump #[(x0, y0)] 1
+  match firstStep with
+  | some h0 => (Num.abs h0 * posneg, k1, m)
+  | none =>
+    let r := hinit (fun j => f (1 + j)) k1
+    (r.1, k1, m.bump r.2 1)
+
 /-- initialisation: first derivative, initial step (given or `hinit`), initial callback -/
 def hStart {σ : Type} (P : HParams α n) (f : Rhs α n) (ob : Obs σ α n) (obs0 : σ) (x0 : α) (y0 : Vec α n)
     (firstStep : Option α) (hinit : Rhs α n → Vec α n → α × Array (α × Vec α n)) (facold0 hlamb0 : α) :
     Sum (HState σ α n) (Result σ α n) :=
-  let k1 := f 0 x0 y0
-  let log : Array (Ev α n) := #[Ev.ode 0 x0 y0]
-  let cnt : Counters := { ode := 1 }
-  let (h, log, ncalls, cnt) :=
-    match firstStep with
-    | some h0 => (Num.abs h0 * P.posneg, log, 1, cnt)
-    | none =>
-      let r := hinit (fun j => f (1 + j)) k1
-      (r.1, logCalls log 1 r.2, 1 + r.2.size, { cnt with ode := cnt.ode + 1 })
-  -- Initial SolOut call
-  let log := log.push (Ev.cb x0 x0 y0 #[])
-  let (obs, flag, ycb) := ob obs0 x0 x0 y0 none
-  match flag with
-  | .interrupt =>
-    .inr { status := .userInterrupt, h := h, x := x0, y := ycb, cnt := cnt, ncalls := ncalls, obs := obs, log := log }
-  | _ =>
-    let (k1, log, ncalls, cnt) :=
-      if flag = .modified then (f ncalls x0 ycb, log.push (Ev.ode ncalls x0 ycb), ncalls + 1, { cnt with ode := cnt.ode + 1 })
-      else (k1, log, ncalls, cnt)
-    .inl { x := x0, h := h, y := ycb, k1 := k1, facold := facold0, hlamb := hlamb0, cnt := cnt, ncalls := ncalls, obs := obs, log := log }
+  let i := startMeter f x0 y0 P.posneg firstStep hinit
+  let m := i.2.2.cb x0 x0 y0 #[]
+  match afterCb f ob obs0 m x0 x0 y0 none i.2.1 with
+  | .stop obs y => .inr { status := .userInterrupt, h := i.1, x := x0, y := y, m := m, obs := obs }
+  | .go obs y k1 m => .inl { x := x0, h := i.1, y := y, k1 := k1, facold := facold0, hlamb := hlamb0, m := m, obs := obs }
 
 def hSolve {σ : Type} (P : HParams α n) (Kn : HKernel α n) (f : Rhs α n) (ob : Obs σ α n) (obs0 : σ) (x0 : α) (y0 : Vec α n)
     (firstStep : Option α) (hinit : Rhs α n → Vec α n → α × Array (α × Vec α n)) (facold0 hlamb0 : α) (fuel : Nat) :
